@@ -531,6 +531,98 @@ var subC18Misc = &fw.Sub{Name: "c18.misc", New: func() fw.Case { return &c18Misc
 		}
 		fw.Tally("process_runs", 10)
 		fw.TallyOutcome("exit-0")
+	case "special-files-2":
+		// standard input of every kind with FILE omitted and with '-': a pipe, an empty regular file, /dev/null (a character
+		// device, like a terminal), a FIFO; BFILE: /dev/null, names that begin with '-'
+		runWith := func(stdin *os.File, argv ...string) procResult {
+			cmd := exec.Command(cliBin(), argv...)
+			cmd.Dir = dir
+			cmd.Stdin = stdin
+			var o, e bytes.Buffer
+			cmd.Stdout, cmd.Stderr = &o, &e
+			err := cmd.Run()
+			code := 0
+			if ee, ok := err.(*exec.ExitError); ok {
+				code = ee.ExitCode()
+			} else if err != nil {
+				code = -1
+			}
+			return procResult{o.String(), e.String(), code}
+		}
+		empty := runCLI(dir, "", "empty.bcl")
+		for _, argv := range [][]string{{}, {"-"}, {"-r"}, {"-r", "-"}} {
+			wantE := runCLI(dir, "", append(append([]string{}, argv...), "empty.bcl")...)
+			if len(argv) > 0 && argv[len(argv)-1] == "-" {
+				wantE = runCLI(dir, "", append(append([]string{}, argv[:len(argv)-1]...), "empty.bcl")...)
+			}
+			for _, in := range []string{"/dev/null", filepath.Join(dir, "empty.bcl")} {
+				f, err := os.Open(in)
+				if err != nil {
+					continue
+				}
+				r := runWith(f, argv...)
+				f.Close()
+				if r.code != wantE.code || r.stdout != wantE.stdout {
+					return fw.Failf(fmt.Sprintf("bcl %v with %s as standard input behaves like an empty FILE: status %d %q", argv, strings.TrimPrefix(in, dir+"/"), wantE.code, wantE.stdout),
+						"status %d stdout %q stderr %q", r.code, fw.Trunc(r.stdout, 200), fw.Trunc(stableText(r.stderr), 200))
+				}
+				fw.Tally("process_runs", 1)
+			}
+		}
+		_ = empty
+		want := runCLI(dir, "", "ok.bcl")
+		wantRT := runCLI(dir, "", "runtime.bcl")
+		// BFILE = /dev/null: nothing to keep, the run is the same
+		for _, prog := range []string{"ok", "runtime"} {
+			w := want
+			if prog == "runtime" {
+				w = wantRT
+			}
+			for _, argv := range [][]string{{"--bdump=/dev/null", prog + ".bcl"}, {prog + ".bcl", "--bdump=/dev/null", "-r"}} {
+				wr := w
+				if len(argv) == 3 {
+					wr = runCLI(dir, "", prog+".bcl", "-r")
+				}
+				if r := runCLI(dir, "", argv...); r.code != wr.code || r.stdout != wr.stdout {
+					return fw.Failf(fmt.Sprintf("bcl %v (a BFILE that is a device) runs the program as without --bdump: status %d %q", argv, wr.code, fw.Trunc(wr.stdout, 200)),
+						"status %d stdout %q stderr %q", r.code, fw.Trunc(r.stdout, 200), fw.Trunc(stableText(r.stderr), 200))
+				}
+				fw.Tally("process_runs", 1)
+			}
+		}
+		// BFILE names that begin with '-' (given with '=', or derived from a FILE that begins with '-')
+		os.WriteFile(filepath.Join(dir, "-neg.bcl"), []byte(c18Progs["ok"]), 0o644)
+		os.WriteFile(filepath.Join(dir, "-rt.bcl"), []byte(c18Progs["runtime"]), 0o644)
+		for _, tc := range []struct {
+			argv  []string
+			bfile string
+			w     procResult
+		}{
+			{[]string{"--bdump=-out.bcb", "ok.bcl"}, "-out.bcb", want},
+			{[]string{"--bdump=--out.bcb", "ok.bcl"}, "--out.bcb", want},
+			{[]string{"--bdump", "--", "-neg.bcl"}, "-neg.bcb", want},
+			{[]string{"--bdump", "--", "-rt.bcl"}, "-rt.bcb", wantRT},
+			{[]string{"--bdump=-", "ok.bcl"}, "-", want},
+		} {
+			r := runCLI(dir, "", tc.argv...)
+			_, serr := os.Stat(filepath.Join(dir, tc.bfile))
+			if tc.bfile == "-" && r.code == 2 {
+				continue // whether '-' may name a dump file is left open by the usage text; everything else is a plain file name
+			}
+			if r.code != tc.w.code || r.stdout != tc.w.stdout || serr != nil {
+				return fw.Failf(fmt.Sprintf("bcl %v runs the program (status %d %q) and writes the BFILE %q", tc.argv, tc.w.code, fw.Trunc(tc.w.stdout, 120), tc.bfile),
+					"status %d stdout %q stderr %q, BFILE written: %v", r.code, fw.Trunc(r.stdout, 120), fw.Trunc(stableText(r.stderr), 200), serr == nil)
+			}
+			l := runCLI(dir, "", "--bload="+tc.bfile)
+			if tc.bfile == "-" {
+				l = runCLI(dir, "", "--bload", "./-")
+			}
+			if l.code != tc.w.code || l.stdout != tc.w.stdout {
+				return fw.Failf(fmt.Sprintf("--bload=%s reproduces the run (status %d %q)", tc.bfile, tc.w.code, fw.Trunc(tc.w.stdout, 120)), "status %d stdout %q stderr %q", l.code, fw.Trunc(l.stdout, 120), fw.Trunc(stableText(l.stderr), 200))
+			}
+			fw.Tally("process_runs", 2)
+		}
+		fw.TallyOutcome("exit-0")
 	case "stdin-offset":
 		// standard input is a file the caller has already read a part of: the tool processes what is left
 		for _, argv := range [][]string{{}, {"-"}, {"-r", "-"}} {
@@ -703,7 +795,7 @@ func init() {
 			for _, u := range []string{"usage:-x", "usage:--foo", "usage:-d1 ok.bcl", "usage:ok.bcl parse.bcl", "usage:--bdump", "usage:--bdump -", "usage:--bdumpx ok.bcl",
 				"usage:--bload=ok.bcb ok.bcl", "usage:-dx ok.bcl", "usage:ok.bcl -d --nope", "help:-h", "help:-d -h", "help:ok.bcl -h -x", "help:-dh",
 				"io:nonexistent.bcl", "io:adir", "io:--bload nonexistent.bcb", "io:--bdump=adir/x/y.bcb ok.bcl", "io:--bload ok.bcl", "io:--bdump=/dev/full ok.bcl", "io:--bdump=/dev/full empty.bcl",
-				"bdump:ok", "bdump:runtime", "bdump:parse", "bdump:empty", "stdin-offset:", "special-files:"} {
+				"bdump:ok", "bdump:runtime", "bdump:parse", "bdump:empty", "stdin-offset:", "special-files:", "special-files-2:"} {
 				c.Do(subC18Misc, &c18Misc{Name: u})
 			}
 			// level 1
